@@ -32,6 +32,7 @@ CONSTANTS Vers, Fams,           \* sets of versions / cipher families to explore
           Unsup,                \* named inputs OUTSIDE what C01 claims that the code must survive (C03 / C06 / C08): subset of
                                 \*   "keyupdate" - TLS 1.3 KeyUpdate (RFC 8446 4.6.3): not implemented, the direction goes dark after it
                                 \*   "hrr"       - HelloRetryRequest: hello, HRR, CCS, CCS, second hello, ServerHello
+          EarlyData,            \* allow application data of the side that finished first before the peer's Finished (False Start / 0.5-RTT)
           Alerts,               \* allow one alert record in the application phase (half-close; data after an alert is not claimed by C01)
           EmitOn
 
@@ -44,7 +45,7 @@ ValidPair(v, f) ==
     [] OTHER       -> f \in {"CBC", "RC4"}
 ImplicitIV(v) == v \in {"SSL30", "TLS10"}
 
-VARIABLES ver, fam, abbrev, hsInLog, pad, tickets, group, fault, hrr,   \* world (chosen in Init)
+VARIABLES ver, fam, abbrev, hsInLog, pad, tickets, group, fault, hrr, early,   \* world (chosen in Init)
           ku,                                                              \* directions that sent a KeyUpdate (environment)
           pc,                   \* position in the handshake script
           snd,                  \* sender cipher state per direction
@@ -59,7 +60,7 @@ VARIABLES ver, fam, abbrev, hsInLog, pad, tickets, group, fault, hrr,   \* world
           lost,                 \* a record was dropped from the capture (KF_LossResync taken)
           hist                  \* records in capture order (history, for behaviour export)
 
-world == <<ver, fam, abbrev, hsInLog, pad, tickets, group, fault, hrr>>
+world == <<ver, fam, abbrev, hsInLog, pad, tickets, group, fault, hrr, early>>
 envv  == <<pc, snd, nApp, nextId, sentApp, lost, alerted, ku>>
 implv == <<chSeen, canDec, hasDec, ccs, rcv, exported, crashed>>
 implAll == <<implv, metaOut>>
@@ -80,6 +81,10 @@ Full13 == (IF hrr THEN <<R("c","CH"), R("s","SH"), R("s","CCS"), R("c","CCS"), R
           \o (IF group = "flight" THEN <<R("s","F13")>> ELSE <<R("s","H13"), R("s","H13"), R("s","H13"), R("s","F13")>>)
           \o <<R("c","CCS"), R("c","F13")>>
 Script == IF ver = "TLS13" THEN Full13 ELSE IF abbrev THEN Abbr12 ELSE Full12
+\* early application data: the side whose Finished goes out first may send application data before the peer's Finished arrives
+\* (TLS <= 1.2 False Start, RFC 7918: the client after its Finished; abbreviated handshake and TLS 1.3 0.5-RTT data: the server)
+EarlyDir == IF ver = "TLS13" \/ abbrev THEN "s" ELSE "c"
+EarlyPos == CHOOSE i \in 1..Len(Script) : Script[i].d = EarlyDir /\ Script[i].k \in {"FIN", "F13"}
 \* a capture that starts after the hellos (fault "midstart") simply lacks the first two records
 Start == IF fault = "midstart" THEN 3 ELSE 1
 
@@ -178,9 +183,10 @@ HsStep == /\ pc <= Len(Script)
           /\ pc' = pc + 1
           /\ UNCHANGED <<world, nApp, sentApp, lost>>
 
-AppStep(drop) == /\ pc > Len(Script) /\ nApp < MaxApp
+AppStep(drop) == /\ nApp < MaxApp
            /\ \E d \in Dir \ {alerted}, lc \in LenClasses :      \* a side that sent its alert (close_notify) sends nothing more
                 LET r == Rec(d, "APP", lc) IN
+                /\ (pc > Len(Script) \/ (early /\ ~drop /\ d = EarlyDir /\ pc > EarlyPos))
                 /\ Emitted(r, drop)
                 /\ sentApp' = [sentApp EXCEPT ![d] = Append(@, r.id)]
            /\ nApp' = nApp + 1
@@ -218,6 +224,7 @@ Init == /\ ver \in Vers /\ fam \in Fams /\ ValidPair(ver, fam)
         /\ group \in (IF abbrev THEN {"permsg"} ELSE {"permsg", "flight"})
         /\ fault \in ({"none"} \cup Faults)
         /\ hrr \in (IF ver = "TLS13" /\ "hrr" \in Unsup THEN BOOLEAN ELSE {FALSE}) /\ ku = {}
+        /\ early \in (IF EarlyData /\ fault = "none" THEN BOOLEAN ELSE {FALSE})
         /\ pc = Start /\ snd = [x \in Dir |-> Fresh("none")]
         /\ nApp = 0 /\ nextId = 1 /\ sentApp = [x \in Dir |-> <<>>] /\ lost = FALSE /\ alerted = "none"
         /\ chSeen = FALSE /\ canDec = FALSE /\ hasDec = FALSE /\ ccs = [x \in Dir |-> FALSE]
@@ -260,7 +267,7 @@ View == <<world, envv, implv>>
 
 Emit == (EmitOn /\ Done) =>
    PrintT(ToJson([ver |-> ver, fam |-> fam, abbrev |-> abbrev, hsInLog |-> hsInLog, pad |-> pad, tickets |-> tickets,
-                  group |-> group, fault |-> fault, lost |-> lost, hrr |-> hrr, ku |-> ku,
+                  group |-> group, fault |-> fault, lost |-> lost, hrr |-> hrr, ku |-> ku, early |-> early,
                   hist |-> [i \in 1..Len(hist) |-> [d |-> hist[i].d, k |-> hist[i].k, len |-> hist[i].len, id |-> hist[i].id]],
                   exported |-> exported, sentApp |-> sentApp]))
 =============================================================================
